@@ -98,21 +98,22 @@ INIT_COMMON = [
     "'id' in self and 'timestamp' in self and 'duration' in self and 'data' in self",
     "self.id == id",
     "ms_aligned(self.timestamp)",
-    "(data is not None and len(data) > 0 and self.data is data) or ((data is None or len(data) == 0) and self.data == {})",
+    "(data is not None and len(data) > 0 and self.data is data) or ((data is None or len(data) == 0) and self.data == {} and fresh(self.data))",
+    "allocated(self.data)",
 ]
 contract(
     M + "Event.__init__",
     params={"self": "Event", "id": "Optional[int]", "timestamp": "datetime", "duration": "timedelta", "data": "Optional[Dict[str,JV]]"},
     param_attrs=ANYDT, requires=["whole_ms_offset(timestamp)"],
     ensures=INIT_COMMON + ["self.timestamp == floor_to_ms(timestamp)", "self.duration == duration"],
-    modifies=["self.id", "self.timestamp", "self.duration", "self.data", "alloc"], raises=[],
+    modifies=["self.id", "self.timestamp", "self.duration", "self.data", "alloc"], writes_fresh=["Dict.map:JV"], raises=[],
 )
 contract(
     M + "Event.__init__:str-float",
     params={"self": "Event", "id": "Optional[int]", "timestamp": "str", "duration": "float", "data": "Optional[Dict[str,JV]]"},
     requires=[],
     ensures=INIT_COMMON + ["self.timestamp == floor_to_ms(parse_date(timestamp))", "self.duration == timedelta(seconds=duration)"],
-    modifies=["self.id", "self.timestamp", "self.duration", "self.data", "alloc"], raises=["ParseError"],
+    modifies=["self.id", "self.timestamp", "self.duration", "self.data", "alloc"], writes_fresh=["Dict.map:JV"], raises=["ParseError"],
 )
 
 # -- equality ------------------------------------------------------------------------------------------------------
@@ -155,6 +156,6 @@ def roundtrip_self(e):
 RT = ["result == e", "result.id == e.id", "result.timestamp == e.timestamp and result.duration == e.duration and result.data == e.data",
       "fresh(result)"]
 contract("contracts.models.roundtrip_json", params={"e": "Event"}, returns="Event", requires=[], ensures=RT,
-         modifies=["alloc"], raises=["ParseError"])
+         modifies=["alloc"], writes_fresh=["*"], raises=["ParseError"])
 contract("contracts.models.roundtrip_self", params={"e": "Event"}, returns="Event", requires=[], ensures=RT,
-         modifies=["alloc"], raises=[])
+         modifies=["alloc"], writes_fresh=["*"], raises=[])
